@@ -89,6 +89,9 @@ type Family struct {
 	// Extra runs once in the parent process: additional exhaustive sub-checks of the same property
 	// whose coverage and violations are merged into the family's evidence.
 	Extra func(tier string) (map[string]any, []engine.Violation)
+	// EvictRefusals: derived fault sets also contain "evict-refused:<pod>" (Cache.Evict returns an error
+	// to the committing statement, as it does for a victim that terminated since the snapshot).
+	EvictRefusals bool
 	// Persistent: every cycle transition is computed by replaying the node's WHOLE path on ONE live
 	// scheduler cache (schedrun.RunPath) instead of a fresh cache on the node's world: what the cache
 	// remembers between cycles takes part. Costs depth x as many cycles; for small focused families.
@@ -319,7 +322,13 @@ func (f *Family) Explore(scn *Scenario, tier string, maxStates int) *ScenarioSta
 						if d.Kind != "bind" && d.Kind != "evict" {
 							continue
 						}
-						key := d.Kind + ":" + d.Pod
+						keys := []string{d.Kind + ":" + d.Pod}
+						if d.Kind == "evict" && f.EvictRefusals {
+							// besides the API delete failing (asynchronously, the scheduler does not see it): the
+							// cache REFUSES the eviction because the victim terminated / vanished since the snapshot
+							keys = append(keys, "evict-refused:"+d.Pod)
+						}
+						for _, key := range keys {
 						if j.cfg.Faults[key] {
 							continue
 						}
@@ -340,6 +349,7 @@ func (f *Family) Explore(scn *Scenario, tier string, maxStates int) *ScenarioSta
 						nc := j.cfg
 						nc.Faults = nf
 						queue = append(queue, job{nc, j.level + 1})
+						}
 					}
 				}
 			}
